@@ -767,3 +767,13 @@ func (e *Engine) keyIsA(t types.Type) string {
 	}
 	return k
 }
+
+// loadLocQuiet reads a location without naming or type assumptions (for obligations about the current value).
+func (e *Engine) loadLocQuiet(st *State, loc *Loc) []string {
+	tmp := &State{pc: "true", heap: st.heap, locals: st.locals, regs: st.regs}
+	save := e.c.inQuant
+	e.c.inQuant++
+	out := e.loadLoc(tmp, loc)
+	e.c.inQuant = save
+	return out
+}
